@@ -11,7 +11,7 @@ META = {
     "level": "exploration",
     "engine": "crypto",
     "technique": "TLA+ spec AfcMessage (symbolic bytes, ideal AEAD) model-checked with TLC as case enumerator and accept/reject oracle; every TLC behaviour replayed into Client::seal/seal_in_place/open/open_in_place (spec->impl conformance, TABLE pattern)",
-    "text": "TLC enumerates, for plaintext lengths 0..40 and 4096 (thorough: 0..64, 1000, 4096), every cut length 0..len-1, one- and two-point modifications at the first/middle/last byte of ciphertext, tag and header, header re-encoding to other sequence numbers (incl. 2^64-1), tag splices and concatenations across messages of the same channel, inserted/appended bytes, arbitrary strings of length 0..64 (random, all-zero, all-0xff), foreign key and foreign label openers, and all four open interfaces (open with exact/larger/smaller dst, open_in_place on Vec, FixedBuf, heapless::Vec); invariants AcceptOnlyAuthentic, AuthenticAccepted, ReturnsWhatWasSealed, Total0, SeqDense hold in the model. Each behaviour is executed on the real client with seeded keys/plaintexts: authentic messages must open (twice) to exactly the plaintext, channel label and sealing sequence number; every other string must be Err without panic and leave no plaintext in the output buffer.",
+    "text": "TLC enumerates, for plaintext lengths 0..40 and 4096 (thorough: 0..64, 1000, 4096), every cut length 0..len-1, one- and two-point modifications at the first/middle/last byte of ciphertext, tag and header, header re-encoding to other sequence numbers (incl. 2^64-1), tag splices and concatenations across messages of the same channel, inserted/appended bytes, arbitrary strings of length 0..64 (random, all-zero, all-0xff), foreign key and foreign label openers, and all open interfaces (open with exact/larger/smaller dst, open_in_place on Vec, FixedBuf, heapless::Vec, and Message::try_parse framing with intact / wrong-version / control-type / invalid-type / short frame headers); invariants AcceptOnlyAuthentic, AuthenticAccepted, ReturnsWhatWasSealed, Total0, SeqDense hold in the model. Each behaviour is executed on the real client with seeded keys/plaintexts: authentic messages must open (twice) to exactly the plaintext, channel label and sealing sequence number; every other string must be Err without panic and leave no plaintext in the output buffer.",
     "note": "Exploration level: the spec contributes the enumeration and the oracle, not cryptographic assurance. Bounds: see text; 1-2 (thorough 3) messages per channel. Error classes (size/auth/small/expired) are compared as drift only. Trusted: memory::State as channel store, DefaultCipherSuite (AES-256-GCM), catch_unwind for panics, overflow-checks on in the harness profile.",
 }
 
@@ -39,7 +39,7 @@ def run(ctx):
             raise verif.ToolError("TLC emitted no behaviours for " + cfg)
         beh += r.replays
     # vacuity: the enumeration must contain accepted and rejected cells of every interface
-    for iface in ("open", "inplace_vec", "inplace_fixed", "inplace_heapless"):
+    for iface in ("open", "framed", "inplace_vec", "inplace_fixed", "inplace_heapless"):
         for ok in (True, False):
             if not any(b["call"]["iface"] == iface and b["expect"]["ok"] == ok for b in beh):
                 raise verif.ToolError("vacuous enumeration: no %s cell with ok=%s" % (iface, ok))
